@@ -2,6 +2,7 @@ package main
 
 import (
 	"fmt"
+	"sort"
 	"os"
 	"path/filepath"
 	"strings"
@@ -71,6 +72,15 @@ func applyEdits(edits []edit) (map[string][]byte, error) {
 // runVariant evaluates one variant; returns (passed, skipped, message).
 func runVariant(v variant, known *KnownFile, tier string) (bool, bool, string) {
 	spec := propTable[v.Prop]
+	if v.Expect == "" {
+		// a behaviour-preserving variant must be silent for EVERY property: run all rules
+		all := &propSpec{ID: "*", Level: "other"}
+		for r := range ruleTable {
+			all.Rules = append(all.Rules, r)
+		}
+		sort.Strings(all.Rules)
+		spec = all
+	}
 	if spec == nil {
 		return false, true, "property not claimed"
 	}
@@ -93,9 +103,40 @@ func runVariant(v variant, known *KnownFile, tier string) (bool, bool, string) {
 		if o.Status == Violated && known.match(v.Prop, o) != nil {
 			continue
 		}
+		if spec.ID == "*" && o.Status == Violated {
+			isKnown := false
+			for _, p := range o.Props {
+				if known.match(p, o) != nil {
+					isKnown = true
+				}
+			}
+			if isKnown {
+				continue
+			}
+		}
 		viol = append(viol, o)
 	}
 	if v.Expect == "" {
+		// a variant that edits only the generated file (or only the template) is real drift for
+		// C19; that report is correct and not what the variant tests
+		touchesGen, touchesTmpl := false, false
+		for _, e := range v.Edits {
+			if e.File == tG {
+				touchesGen = true
+			}
+			if strings.HasSuffix(e.File, ".tmpl") {
+				touchesTmpl = true
+			}
+		}
+		if touchesGen != touchesTmpl {
+			var rest []*Obligation
+			for _, o := range viol {
+				if o.Rule != "R34" {
+					rest = append(rest, o)
+				}
+			}
+			viol = rest
+		}
 		if len(viol) == 0 {
 			return true, false, "silent"
 		}
